@@ -14,9 +14,23 @@
      tile_lo / tile_hi E O t        = ends (metres) of the altitude interval of the tile: cell tz of the key scale (tv, E, O)
      inT E O t (u, w, a)            := (u, w) in the footprint of t and altitude a * 2^25 m in the tile's altitude interval
      Voxel.inR j (u, w, a)          := the point lies in voxel j  (a = altitude / 2^25)
-   DOMAIN. All theorems about tiles_to_eids / tiles_to_sids hold for ALL integer arguments (no bound on the list, on x, y, z, E, O). They
-   speak about the Go code wherever no int64 operation of the per-tile range computation wraps: C13_range_computation_is_exact_on_domain
-   (zooms 0..35 as enforced by NewTileXYZ and the zoom check, 0 <= E <= 35, |O| <= 2^50). *)
+     tile_fits E O outV t           := zooms th, tv, outV in 0..35 /\ 0 <= tz < 2^tv /\ the metre-widened cover [wid_min, wid_max] of the tile's
+                                       altitude interval on the spatial-ID axis at zoom outV lies inside [-2^outV, 2^outV)   (no conversion function)
+     stems_from E O outV t j        := tile_fits /\ footprint and vertical zoom as in from_tile /\ wid_min <= ef j <= wid_max
+   STATUS. Every theorem below is a theorem about the Gallina MODEL (Tile.v) over unbounded integers, for ALL integer arguments (no bound
+   on the list, on x, y, z, E, O). What ties the model to the Go code:
+     - the differential run (harness/props/c13) on every check;
+     - the regenerated kernels: C13_generated_* below (an edit of ConvertAltitudekeyToMinMaxZ, extendedSpatialIDCheckZoom,
+       HorizontalZoomMinMax / VerticalZoom in /repo breaks these obligations);
+     - int64: C13_range_computation_is_exact_on_domain covers ONLY the per-tile range computation (ConvertAltitudekeyToMinMaxZ: zooms 0..35,
+       0 <= E <= 35, |O| <= 2^50). The extended variant copies x, y unchanged, so it is the code for every int64 x, y. The spatial variant
+       multiplies x, y, f by 2^d in int64: the model is claimed to be the code only for footprints of the grid (0 <= x, y < 2^hZoom, where
+       every product stays below 2^36); outside, int64 wraps (tile (0, 2^62, 0, 25, 0), E 25, O 0, outV 2: Go returns x = 0..3) and the
+       dispatcher answers bad_case.
+     - "no partial result on error" is not a theorem (the model's Err carries no payload): it is checked on every run (DC13.obs_list).
+     - C13_spatial_variant_is_the_expansion, C13_single_tile_is_exactly_the_range, C13_empty_request hold by unfolding the model's definition
+       (the Go body of ConvertTileXYZsToSpatialIDs is literally that composition); the content of the spatial clause is in the C10 theorems
+       it is composed with (C13_spatial_members / _same_region / _covers_every_tile). *)
 From Coq Require Import ZArith String List Bool Permutation Reals.
 From Flocq Require Import Core.
 From SID Require Import Base Str AltKeyCore AltKey Ids Voxel ZoomCore Notation Tile DC13.
@@ -85,7 +99,7 @@ Theorem C13_range_is_the_C12_cover : forall E O outV t mn mx, tile_accepted E O 
   mn = wid_min g (tile_lo E O t) /\ mx = wid_max g (tile_hi E O t) /\
   mn <= cov_min g (tile_lo E O t) /\ cov_max g (tile_hi E O t) <= mx /\ mn <= mx /\
   ((tv t <= E \/ outV <= zorigin) -> mn = cov_min g (tile_lo E O t) /\ mx = cov_max g (tile_hi E O t)) /\
-  - 2 ^ outV <= mn /\ mx < 2 ^ outV.
+  - 2 ^ outV <= mn /\ mx < 2 ^ outV /\ 0 <= tv t <= 35.
 Proof. exact tile_accepted_C12. Qed.
 Print Assumptions C13_range_is_the_C12_cover.
 
@@ -100,6 +114,32 @@ Theorem C13_error_iff_bad_zoom_or_some_tile_rejected : forall l E O outV,
   tiles_to_eids l E O outV = Err <-> ~ (0 <= outV <= 35) \/ exists t, In t l /\ tile_rejected E O outV t.
 Proof. exact tiles_to_eids_err_iff. Qed.
 Print Assumptions C13_error_iff_bad_zoom_or_some_tile_rejected.
+
+(* the same without the conversion function: WHEN a tile is accepted, WHICH range it gets, and when the call fails *)
+Theorem C13_tile_rejected_in_independent_words : forall E O outV t, tile_rejected E O outV t <-> ~ tile_fits E O outV t.
+Proof. exact tile_rejected_iff. Qed.
+Print Assumptions C13_tile_rejected_in_independent_words.
+
+Theorem C13_tile_accepted_in_independent_words : forall E O outV t mn mx,
+  tile_accepted E O outV t mn mx <->
+  tile_fits E O outV t /\ mn = wid_min (sid_scale outV) (tile_lo E O t) /\ mx = wid_max (sid_scale outV) (tile_hi E O t).
+Proof. exact tile_accepted_iff. Qed.
+Print Assumptions C13_tile_accepted_in_independent_words.
+
+Theorem C13_members_in_independent_words : forall l E O outV r, tiles_to_eids l E O outV = Ok r ->
+  (forall t, In t l -> tile_fits E O outV t) /\ forall j, In j r <-> exists t, In t l /\ stems_from E O outV t j.
+Proof. exact tiles_to_eids_members_ind. Qed.
+Print Assumptions C13_members_in_independent_words.
+
+Theorem C13_error_iff_in_independent_words : forall l E O outV,
+  tiles_to_eids l E O outV = Err <-> ~ (0 <= outV <= 35) \/ exists t, In t l /\ ~ tile_fits E O outV t.
+Proof. exact tiles_to_eids_err_iff_ind. Qed.
+Print Assumptions C13_error_iff_in_independent_words.
+
+Theorem C13_succeeds_iff_every_tile_fits : forall l E O outV,
+  (exists r, tiles_to_eids l E O outV = Ok r) <-> 0 <= outV <= 35 /\ forall t, In t l -> tile_fits E O outV t.
+Proof. exact tiles_to_eids_ok_iff_ind. Qed.
+Print Assumptions C13_succeeds_iff_every_tile_fits.
 
 Theorem C13_invalid_output_zoom_fails_every_request : forall l E O outV, ~ (0 <= outV <= 35) -> tiles_to_eids l E O outV = Err.
 Proof. exact tiles_to_eids_bad_output_zoom. Qed.
@@ -218,14 +258,32 @@ Proof. exact tile_range_int64_exact. Qed.
 Print Assumptions C13_range_computation_is_exact_on_domain.
 
 (* ---- the run-time checkers decide the specification on the OBSERVED output (DC13.v) ---- *)
-(* eids_spec l E O outV (Some r) := 0 <= outV <= 35 /\ every tile accepted /\ NoDup r /\ (In j r <-> j stems from a tile);
-   eids_spec l E O outV None     := outV outside 0..35 \/ some tile rejected            (None = an error together with an empty result) *)
-Theorem C13_checker_sound : forall l E O outV obs, check_eids l E O outV obs = true <-> eids_spec l E O outV obs.
-Proof. exact check_eids_sound. Qed.
-Print Assumptions C13_checker_sound.
+(* eids_spec l E O outV (Some r) := 0 <= outV <= 35 /\ every tile fits /\ NoDup r /\ (In j r <-> exists t in l, stems_from E O outV t j);
+   eids_spec l E O outV None     := outV outside 0..35 \/ some tile does not fit     (None = an error together with an empty result).
+   The specification fixes the result up to order, so on ACCEPTED observations the checker and the comparison with the model agree; what the
+   checker adds is that its verdict is proved to be the Prop-level property (stated without the conversion function), computed from AltKey's
+   integer formulas of the widened cover (wid_min_z / wid_max_z), a sorted duplicate test and per-tile counting — not from key2z. *)
+Theorem C13_checker_decides_the_spec : forall l E O outV obs, check_eids l E O outV obs = true <-> eids_spec l E O outV obs.
+Proof. exact check_eids_decides. Qed.
+Print Assumptions C13_checker_decides_the_spec.
+
+(* what an accepted observation of the EXTENDED variant guarantees, in the words of the property *)
+Theorem C13_accepted_extended_observation : forall l E O outV r, check_eids l E O outV (Some r) = true ->
+  0 <= outV <= 35 /\ (forall t, In t l -> tile_fits E O outV t) /\ NoDup r /\
+  (forall j, In j r -> ev j = outV /\ exists t, In t l /\ eh j = th t /\ ex j = tx t /\ ey j = ty t) /\
+  (forall t p, In t l -> inT E O t p -> exists j, In j r /\ inR j p) /\
+  (forall j, In j r -> exists t, In t l /\ eh j = th t /\ ex j = tx t /\ ey j = ty t /\
+     exists a, (IZR (Zfloor (tile_lo E O t)) <= a < IZR (Zceil (tile_hi E O t)))%R /\ in_cell (sid_scale outV) (ef j) a).
+Proof. exact eids_accepted_observation. Qed.
+Print Assumptions C13_accepted_extended_observation.
+
+Theorem C13_accepted_error_observation : forall l E O outV, check_eids l E O outV None = true ->
+  ~ (0 <= outV <= 35) \/ exists t, In t l /\ ~ tile_fits E O outV t.
+Proof. exact eids_rejected_observation. Qed.
+Print Assumptions C13_accepted_error_observation.
 
 Theorem C13_model_meets_spec : forall l E O outV, eids_spec l E O outV (res_opt (tiles_to_eids l E O outV)).
-Proof. exact eids_spec_model. Qed.
+Proof. exact eids_spec_of_model. Qed.
 Print Assumptions C13_model_meets_spec.
 
 Theorem C13_spec_fixes_the_result_up_to_order : forall l E O outV obs, eids_spec l E O outV obs ->
@@ -234,8 +292,22 @@ Theorem C13_spec_fixes_the_result_up_to_order : forall l E O outV obs, eids_spec
   | None, Err => True
   | _, _ => False
   end.
-Proof. exact eids_spec_unique. Qed.
+Proof. exact eids_spec_fixes_result. Qed.
 Print Assumptions C13_spec_fixes_the_result_up_to_order.
+
+(* the sorted duplicate test and the sorted de-duplication used at run time (n log n) are what they stand for *)
+Theorem C13_sorted_duplicate_test : forall l, nodup_sortb l = true <-> NoDup l.
+Proof. exact nodup_sortb_spec. Qed.
+Print Assumptions C13_sorted_duplicate_test.
+
+Theorem C13_run_time_model_is_the_model_up_to_order : forall l E O outV,
+  match tiles_to_eids_fast l E O outV, tiles_to_eids l E O outV with
+  | Ok a, Ok b => Permutation a b
+  | Err, Err => True
+  | _, _ => False
+  end.
+Proof. exact tiles_to_eids_fast_spec. Qed.
+Print Assumptions C13_run_time_model_is_the_model_up_to_order.
 
 (* the reference the checker uses is independent of the model function: AltKey's integer formulas of the widened cover *)
 Theorem C13_reference_range_is_the_accepted_range : forall E O outV t mn mx,
@@ -286,6 +358,28 @@ Theorem C13_exactness_guard_holds_on_domain : forall tiles ts E O outV, build ti
   exact_tiles ts E O outV = true.
 Proof. exact exact_tiles_on_domain. Qed.
 Print Assumptions C13_exactness_guard_holds_on_domain.
+
+(* ---- tie to the source by regeneration (DESIGN.md 4.2): the kernels translated from /repo's current source (generated/Generated.v) are
+        the models the theorems above are composed of; an edit of these functions in /repo breaks these obligations ---- *)
+From SIDGen Require Generated.
+From SID Require GenTac GenEqAlt GenEqCheck GenEqZoom.
+Theorem C13_generated_range_kernel_is_the_model : forall k kz out E O,
+  Generated.ConvertAltitudekeyToMinMaxZ k kz out E O = GenTac.enc_zz (AltKeyCore.key2z k kz out E O).
+Proof. exact GenEqAlt.gen_ConvertAltitudekeyToMinMaxZ_eq. Qed.
+Print Assumptions C13_generated_range_kernel_is_the_model.
+
+Theorem C13_generated_zoom_check_is_the_model : forall h v, Generated.extendedSpatialIDCheckZoom h v = ext_check_zoom h v.
+Proof. exact GenEqCheck.gen_extendedSpatialIDCheckZoom_eq. Qed.
+Print Assumptions C13_generated_zoom_check_is_the_model.
+
+Theorem C13_generated_tile_zoom_limit : Generated.MaxTileXYZZoom = max_tile_zoom.
+Proof. exact GenEqCheck.gen_MaxTileXYZZoom_eq. Qed.
+Print Assumptions C13_generated_tile_zoom_limit.
+
+Theorem C13_generated_expansion_kernels_are_the_model : forall zin x y f zout,
+  Generated.HorizontalZoomMinMax zin x y zout = hzoom_minmax zin x y zout /\ Generated.VerticalZoom_minmax zin f zout = vzoom_minmax zin f zout.
+Proof. exact (fun zin x y f zout => conj (GenEqZoom.gen_HorizontalZoomMinMax_eq zin x y zout) (GenEqZoom.gen_VerticalZoom_minmax_eq zin f zout)). Qed.
+Print Assumptions C13_generated_expansion_kernels_are_the_model.
 
 (* ---- non-vacuity ---- *)
 (* the documentation's examples 1 and 3 *)
